@@ -18,6 +18,14 @@ thread_local! {
 
 static HOOK: Once = Once::new();
 
+/// Set once a failure that is not a listed known finding has been seen in this process. System-level checks then
+/// shorten their deadlines and skip confirmation re-runs, so that shrinking a failing case stays affordable.
+pub static FAILED: AtomicBool = AtomicBool::new(false);
+
+pub fn failed_already() -> bool {
+    FAILED.load(Ordering::Relaxed)
+}
+
 pub fn install_panic_hook() {
     HOOK.call_once(|| {
         let prev = std::panic::take_hook();
@@ -75,6 +83,11 @@ pub trait SubCheck: Sync {
     fn max_shrink_iters(&self) -> u32 {
         4096
     }
+    /// how often a shrunk failing case is re-executed before it is called non-reproducible (the implementation draws
+    /// its own randomness)
+    fn confirm_runs(&self) -> u32 {
+        40
+    }
 }
 
 fn seed_bytes(seed: u64, sub: &str, worker: usize) -> [u8; 32] {
@@ -121,6 +134,7 @@ pub fn run_sub<S: SubCheck>(ctx: &PropCtx, s: &S, cases: u32) {
                 let rng = proptest::test_runner::TestRng::from_seed(RngAlgorithm::ChaCha, &seed_bytes(ctx.seed, s.name(), w));
                 let mut runner = TestRunner::new_with_rng(cfg, rng);
                 let failed_here = std::cell::Cell::new(false);
+                let first_fail: std::cell::RefCell<Option<(S::Case, Fail)>> = std::cell::RefCell::new(None);
                 let res = runner.run(&strategy, |case| {
                     if stop.load(Ordering::Relaxed) && !failed_here.get() {
                         // another worker found a failure: finish quickly
@@ -137,7 +151,11 @@ pub fn run_sub<S: SubCheck>(ctx: &PropCtx, s: &S, cases: u32) {
                         if std::env::var("VERIF_DEBUG").is_ok() {
                             eprintln!("[debug] {} fails: {} :: {}", s.name(), f.sig, crate::ev::truncate(&f.msg, 300));
                         }
+                        if first_fail.borrow().is_none() {
+                            *first_fail.borrow_mut() = Some((case.clone(), f.clone()));
+                        }
                         failed_here.set(true);
+                        FAILED.store(true, Ordering::Relaxed);
                         stop.store(true, Ordering::Relaxed);
                         return Err(TestCaseError::fail(f.sig.clone()));
                     }
@@ -152,14 +170,21 @@ pub fn run_sub<S: SubCheck>(ctx: &PropCtx, s: &S, cases: u32) {
                         // the implementation draws its own randomness (salts, paddings): a failure that depends on it may
                         // need a few re-executions to show again
                         let mut out = exec_caught(s, &case);
-                        for _ in 0..40 {
+                        for _ in 0..s.confirm_runs() {
                             if out.fail.is_some() {
                                 break;
                             }
                             out = exec_caught(s, &case);
                         }
-                        let fail = out.fail.unwrap_or_else(|| Fail::new(format!("{}/flaky", s.name()), "failure did not reproduce on 40 re-executions of the shrunk case"));
-                        ctx.violation(s.name(), &serde_json::to_value(&case).unwrap_or(Value::Null), &fail);
+                        match (out.fail, first_fail.into_inner()) {
+                            (Some(fail), _) => ctx.violation(s.name(), &serde_json::to_value(&case).unwrap_or(Value::Null), &fail),
+                            // the shrunk case does not reproduce: report the case that failed first, unshrunk
+                            (None, Some((c0, f0))) => ctx.violation(s.name(), &serde_json::to_value(&c0).unwrap_or(Value::Null), &f0),
+                            (None, None) => {
+                                let fail = Fail::new(format!("{}/flaky", s.name()), "failure did not reproduce on re-execution of the shrunk case");
+                                ctx.violation(s.name(), &serde_json::to_value(&case).unwrap_or(Value::Null), &fail)
+                            }
+                        }
                     }
                     Err(TestError::Abort(r)) => {
                         eprintln!("[{}] {} generator aborted: {}", ctx.id, s.name(), r);
@@ -190,6 +215,7 @@ pub fn run_list<S: SubCheck>(ctx: &PropCtx, s: &S, sub_name: &str, cases: Vec<S:
                             ctx.record_excluded(sub_name, &kid);
                             continue;
                         }
+                        FAILED.store(true, Ordering::Relaxed);
                         let mut g = first_fail.lock().unwrap();
                         if g.is_none() {
                             *g = Some((case.clone(), f.clone()));
